@@ -142,7 +142,10 @@ def execute(ctx, env, case, resp=None):
     ifr = {None: None, "etag": etag, "stale-etag": '"0123456789abcdef0123456789abcdef01234567"',
            "weak-etag": "W/" + (etag or '""'), "last-modified": lm, "other-date": "Wed, 21 Oct 2015 07:28:00 GMT",
            "garbage": "garbage", "empty": "", "unquoted-etag": (etag or "").strip('"'),
-           "later-date": "Fri, 01 Jan 2100 00:00:00 GMT", "lm-plus-1s": _shift_date(lm, 1), "lm-minus-1s": _shift_date(lm, -1)}[kind]
+           "later-date": "Fri, 01 Jan 2100 00:00:00 GMT", "lm-plus-1s": _shift_date(lm, 1), "lm-minus-1s": _shift_date(lm, -1),
+           # the digits of Last-Modified under another zone, or with another day name: another instant / not the value that was handed out
+           "lm-other-zone": (lm or "").replace("GMT", "+0900"), "lm-est": (lm or "").replace("GMT", "EST"),
+           "lm-other-weekday": ("Mon" if not (lm or "").startswith("Mon") else "Tue") + (lm or "")[3:]}[kind]
     if ifr is not None:
         headers.append(("If-Range", ifr))
         if (size + len(ifr)) % 2:
@@ -324,7 +327,7 @@ def gen_cases(ctx, rng):
                     ifr_kinds = [None]
                     if rh is not None and rng.random() < 0.25:
                         ifr_kinds.append(rng.choice(["etag", "stale-etag", "weak-etag", "last-modified", "other-date",
-                                                     "garbage", "empty", "unquoted-etag", "later-date", "lm-plus-1s", "lm-minus-1s"]))
+                                                     "garbage", "empty", "unquoted-etag", "later-date", "lm-plus-1s", "lm-minus-1s", "lm-other-zone", "lm-est", "lm-other-weekday"]))
                     for kind in ifr_kinds:
                         for method in (("GET", "HEAD") if rng.random() < 0.3 else ("GET",)):
                             c = {"iface": iface, "size": size, "chunk": chunk, "range": rh, "if_range": kind,
